@@ -11,6 +11,7 @@ mod uni;
 mod c08;
 mod c08lang;
 mod c09;
+mod c09splice;
 mod seed;
 mod c10;
 mod c11;
@@ -56,7 +57,11 @@ fn checks_for(property: &str, tier: Tier) -> Vec<Box<dyn Check>> {
             v.push(Box::new(c08lang::Blocks::new(tier)));
             v
         }
-        | "C09" => c09::checks(tier),
+        | "C09" => {
+            let mut v = c09::checks(tier);
+            v.extend(c09splice::checks(tier));
+            v
+        }
         | "C10" => c10::checks(tier),
         | "C11" => c11::checks(tier),
         | "C17" => vec![Box::new(c17lsp::LspProtocol::new(tier))],
